@@ -24,6 +24,10 @@ func (u *Unit) execCall(s *State, f *Frame, x *ssa.Call) []*State {
 		for i, cp := range u.C.CallPre {
 			if cp.Name == name {
 				env := u.specEnv(s, f)
+				for k, a := range c.Args {
+					// arg0, arg1, ...: the arguments of this call (without the receiver)
+					env.names[fmt.Sprintf("arg%d", k)] = u.val(s, f, a)
+				}
 				oname := fmt.Sprintf("%s#callpre.%s.%d", shortKey(fnKey(u.Fn)), sanitize(name), i+1)
 				u.oblige(s, oname, "callpre", x.Pos(), "at every call of "+name+": "+cp.Text, u.evalBool(env, cp.E))
 			}
